@@ -709,3 +709,102 @@ def rule_children_keep_order(model: Model, rule_id: str = 'C07-R6') -> RuleResul
             else:
                 r.ok()
     return r
+
+
+def rule_children_all_rendered(model: Model, rule_id: str = 'C08-R10') -> RuleResult:
+    """Every child of a composite node is rendered, unconditionally, and only a union node tells its direct children that they are
+    printed inside a union (leaf renderers drop their "instead got" line there, and the duplicate-key renderer asserts it is not)."""
+    r = RuleResult(rule_id, 'composite renderers print every child on every iteration; only SumErrorNode passes inside_sum=True', floor=2)
+    for q in sorted(error_node_classes(model)):
+        ci = model.cls(q)
+        pe = ci.methods.get('print_error')
+        if pe is None or not isinstance(pe.node, ast.FunctionDef):
+            continue
+        cfg = cfg_of(model, pe)
+        is_sum = ci.name == 'SumErrorNode'
+        for n in cfg.live_nodes():
+            for root in node_exprs(n):
+                for c in walk_no_nested(root):
+                    if not (isinstance(c, ast.Call) and isinstance(c.func, ast.Attribute) and c.func.attr == 'print_error'):
+                        continue
+                    if isinstance(c.func.value, ast.Call) and unparse(c.func.value.func) == 'super':
+                        continue
+                    r.instances += 1
+                    r.analysed.add(pe.qualname)
+                    flag = c.args[1] if len(c.args) > 1 else next((k.value for k in c.keywords if k.arg == 'inside_sum'), None)
+                    flag_s = unparse(flag) if flag is not None else None
+                    r.sample({'renderer': ci.name, 'child call': unparse(c)[:70], 'inside_sum': flag_s})
+                    if is_sum and flag_s != 'True':
+                        r.fail(pe.qualname, f"inside_sum={flag_s}", pe.loc(c), "alternatives of a union are not rendered as alternatives")
+                    elif not is_sum and flag_s not in (None, 'False'):
+                        r.fail(pe.qualname, f"inside_sum={flag_s}", pe.loc(c),
+                               "a product node hands the union flag down to its children: a duplicate-key child asserts it is not inside a "
+                               "union (str(ConvertError) raises AssertionError) and leaves lose their 'instead got' line")
+                    else:
+                        r.ok()
+                    # rendered on every iteration: no branch inside the enclosing loop(s) decides whether the child is printed
+                    r.instances += 1
+                    skipping = []
+                    for (cid, _lb) in cfg.conditions_of(n):
+                        cn = cfg.nodes[cid]
+                        if cn.kind == 'cond' and any(lp in cn.loop_of for lp in n.loop_of):
+                            skipping.append(unparse(cn.ast)[:60] if cn.ast is not None else '?')
+                    if skipping:
+                        r.fail(pe.qualname, f"child rendered only if {skipping[0]}", pe.loc(c),
+                               "some children of the node are skipped by the renderer: their failing paths, expectations and missing / "
+                               "unexpected fields never reach the message")
+                    else:
+                        r.ok()
+    return r
+
+
+def builds_error_leaf_from_parts(e: ast.AST, nm: ast.Name) -> bool:
+    """``nm`` only occurs as ``nm.attr`` / in a test (the code reads a field of the inner node to build something else): not a rebuild."""
+    par = getattr(nm, '_parent', None)
+    return isinstance(par, ast.Attribute) and not isinstance(e, ast.Call)
+
+
+def rule_inner_tree_passed_through(model: Model, rule_id: str = 'C07-R7') -> RuleResult:
+    """A converter that wraps another one (a condition, a delegate, a delayed reference) reports the inner converter's failure as the
+    inner converter's own tree: the node is handed on as it is, not rebuilt with another expectation or value."""
+    r = RuleResult(rule_id, "a wrapper's diagnostic pass returns the inner converter's error tree unchanged", floor=2)
+    zone = conversion_zone(model)
+    for cls in family(model):
+        for f in zone[cls.qualname]:
+            if 'collect_errors' not in f.name or not isinstance(f.node, ast.FunctionDef):
+                continue
+            cfg = cfg_of(model, f)
+            nz = Normalizer(model, f, cfg)
+            rd = cfg.reaching()
+            def origins(e: ast.AST, at: Node, depth: int = 0) -> t.List[t.Tuple[ast.AST, Node]]:
+                if isinstance(e, ast.Name) and rd.is_local(e.id) and depth < 4:
+                    defs = rd.at(at, e.id)
+                    if defs and all(d.kind in ('assign', 'walrus') and d.value is not None and not d.path for d in defs):
+                        return [o for d in defs for o in origins(d.value, d.node, depth + 1)]
+                return [(e, at)]
+            for n in cfg.live_nodes():
+                if n.kind != 'return' or n.ast is None or n.ast.value is None:
+                    continue
+                for (e, at) in origins(n.ast.value, n):
+                    inner_calls = [x for x in ast.walk(e) if isinstance(x, ast.Call) and isinstance(x.func, ast.Attribute) and x.func.attr == 'collect_errors']
+                    if not inner_calls:
+                        # built from a local that holds an inner tree (`replace(node, ...)`)?
+                        for nm in ast.walk(e):
+                            if isinstance(nm, ast.Name) and isinstance(nm.ctx, ast.Load) and rd.is_local(nm.id) and nm is not e:
+                                for (o, _oat) in origins(nm, at):
+                                    if isinstance(o, ast.Call) and isinstance(o.func, ast.Attribute) and o.func.attr == 'collect_errors' \
+                                            and not builds_error_leaf_from_parts(e, nm):
+                                        inner_calls = [o]
+                    if not inner_calls:
+                        continue
+                    r.instances += 1
+                    r.analysed.add(f.qualname)
+                    form = nz.expr(e, at)
+                    r.sample({'function': f.qualname, 'returns': form[:100]})
+                    if e is inner_calls[0] or (isinstance(e, ast.Call) and unparse(e.func).endswith('cast') and len(e.args) == 2 and e.args[1] is inner_calls[0]):
+                        r.ok()
+                    else:
+                        r.fail(f.qualname, f"returns {form[:100]}", f.loc(n.ast),
+                               "the inner converter's error tree is rebuilt before it is reported (another expectation, another value): "
+                               "what the inner type says about the failure (the tag it looked for, the offending sub-value) is lost")
+    return r
